@@ -1,0 +1,54 @@
+//go:build verif
+
+package core
+
+// Contracts for eventloop.go and the socket-facing part of connection.go, read by the rcvc verifier in
+// /verif (comment-only; adds no code).
+//
+// Ghost state: for every connection, wcount is the number of byte slices handed to the socket layer so far
+// and wlog[k] is the k-th of them (what the peer receives is their concatenation, see the buffer contracts).
+
+//@ ghost field conn.wcount Int
+//@ ghost field conn.wlog (Array Int Slice)
+
+//@ define closedfx(c) = !c.opened ==> (c.inMsgQueue == nil && c.inFragQueue == nil && c.outFragQueue == nil)
+
+//@ func conn.write
+//@   flags trusted
+//@   modifies c.opened, c.buffer, c.localAddr, c.remoteAddr, c.pollAttachment, c.initStep, c.initStatus, c.isSlave, c.connType
+//@   modifies c.inMsgQueue, c.inFragQueue, c.outFragQueue, c.wcount, c.wlog, elastic.RingBuffer.rb, ring.Buffer.r, ring.Buffer.w, ring.Buffer.isEmpty
+//@   requires c.loop != nil
+//@   ensures old(c.opened) ==> c.wcount == old(c.wcount) + 1 && c.wlog[old(c.wcount)] == data
+//@   ensures forall k int :: 0 <= k && k < old(c.wcount) ==> c.wlog[k] == old(c.wlog[k])
+//@   ensures c.opened ==> (old(c.opened) && c.inMsgQueue == old(c.inMsgQueue) && c.inFragQueue == old(c.inFragQueue) && c.outFragQueue == old(c.outFragQueue) && err == nil)
+//@   ensures closedfx(c)
+
+//@ func conn.writev
+//@   flags trusted
+//@   modifies c.opened, c.buffer, c.localAddr, c.remoteAddr, c.pollAttachment, c.initStep, c.initStatus, c.isSlave, c.connType
+//@   modifies c.inMsgQueue, c.inFragQueue, c.outFragQueue, c.wcount, c.wlog, elastic.RingBuffer.rb, ring.Buffer.r, ring.Buffer.w, ring.Buffer.isEmpty, elems(bs)
+//@   requires c.loop != nil
+//@   ensures old(c.opened) ==> c.wcount == old(c.wcount) + len(bs) && (forall k int :: 0 <= k && k < len(bs) ==> c.wlog[old(c.wcount) + k] == old(bs[k]))
+//@   ensures forall k int :: 0 <= k && k < old(c.wcount) ==> c.wlog[k] == old(c.wlog[k])
+//@   ensures c.opened ==> (old(c.opened) && c.inMsgQueue == old(c.inMsgQueue) && c.inFragQueue == old(c.inFragQueue) && c.outFragQueue == old(c.outFragQueue) && err == nil)
+//@   ensures closedfx(c)
+
+//@ func eventloop.closeConn
+//@   flags trusted
+//@   modifies c.opened, c.buffer, c.localAddr, c.remoteAddr, c.pollAttachment, c.initStep, c.initStatus, c.isSlave, c.connType
+//@   modifies c.inMsgQueue, c.inFragQueue, c.outFragQueue, elastic.RingBuffer.rb, ring.Buffer.r, ring.Buffer.w, ring.Buffer.isEmpty
+//@   ensures !c.opened && closedfx(c)
+
+//@ func msgPool.Put
+//@   flags trusted
+//@   modifies m.Id, m.Type, m.Owner, m.Body, m.RspBody, m.Done, m.Error, m.Fd2Slot, m.Keys, m.Frags, m.Frags2, m.FragDoneNumber, m.DelNum, m.prev, m.next
+
+//@ func elastic.RingBuffer.Write
+//@   flags trusted
+//@   modifies elastic.RingBuffer.rb, ring.Buffer.buf, ring.Buffer.size, ring.Buffer.r, ring.Buffer.w, ring.Buffer.isEmpty
+
+//@ func eventloop.cread
+//@   props WIP
+//@   requires c != nil && c.loop != nil && EngineGlobal != nil && el.eventHandler != nil && c.opened && c.inMsgQueue != nil && mwf(c.inMsgQueue)
+//@   loop 0
+//@     invariant c != nil && c.loop != nil && EngineGlobal != nil && el.eventHandler != nil && c.opened && c.inMsgQueue != nil
